@@ -36,6 +36,38 @@ def gen_dag(r, n):
                 if r.random() < extra and [order[j], order[i]] not in es and not (order[j] in parents and order[i] in parents):
                     es.append([order[j], order[i]])
         return shuffled(r, es)
+    if n >= 5 and r.random() < 0.3:
+        # a clique whose internal orientations are only partly compelled from outside: outsiders point into some clique members
+        # (orientation rules whose premises need NON-adjacent parents meet plenty of adjacent ones here)
+        k = min(n - 2, r.choice([3, 4]))
+        clique, outside = order[:k], order[k:]
+        for i in range(k):
+            for j in range(i):
+                es.append([clique[j], clique[i]])
+        if len(outside) >= 2 and r.random() < 0.6:
+            # a collider M outside the clique: early clique members and an unrelated node T point to M, M points to some late members.
+            # M -> W is compelled, the clique edges into W follow by acyclicity, and what happens to W's remaining clique edges
+            # depends on the order in which the orientation rules fire
+            m, t = outside[0], outside[1]
+            cut = r.randint(1, k - 1)
+            for c in clique[:cut]:
+                es.append([c, m])
+            es.append([t, m])
+            late = [c for c in clique[cut:] if r.random() < 0.5] or [clique[cut]]
+            for c in late:
+                es.append([m, c])
+            for o in outside[2:]:
+                es.append([o, r.choice(clique)])
+            return shuffled(r, es)
+        for o in outside:
+            for c in r.sample(clique, r.randint(1, 2)):
+                es.append([o, c] if r.random() < 0.8 else [c, o])
+        for a, b in itertools.combinations(outside, 2):
+            if r.random() < 0.3:
+                es.append([a, b])
+        if is_acyclic(n, [tuple(e) for e in es]):
+            return shuffled(r, es)
+        es = []
     for i in range(n):
         for j in range(i):
             if r.random() < dens:
@@ -46,7 +78,7 @@ def gen_dag(r, n):
 def generate(streams, tier):
     big = tier == "thorough"
     r = streams.s("world")
-    n = r.randint(2, 6 if big else 5)
+    n = 6 if r.random() < (0.35 if big else 0.3) else r.randint(2, 6 if big else 5)
     edges = gen_dag(r, n)
     rl = streams.s("labels")
     labels, _ = W.gen_labels(rl, n, weighted(rl, [("str", 3), ("short", 3), ("prefix", 1)]))
